@@ -679,6 +679,73 @@ CORPUS = [
     B("c15-xrecover-skips-i-branch-for-small", ["C15", "C14"], [(ED, "    if (x*x - xx) % Q != 0: x = (x*I) % Q", "    if (x*x - xx) % Q != 0 and xx > 2**200: x = (x*I) % Q")],
       note="only y whose xx is below 2^200 are affected (probability 2^-55): valid encodings of such points are rejected and M/N/S derivation could change"),
     N("c15-xrecover-reordered", [(ED, "    xx = (y*y-1) * inv(d*y*y+1)", "    den = d*y*y+1\n    xx = (y*y-1) * inv(den)")]),
+    # ------------------------------------------------------------------ lessons from the independent seeds (rounds 1-3)
+    B("seed-c11-discard-all-zero-draw", ["C11", "C04"], [(UT, """        assert len(enough_bytes) == num_bytes
+""", """        assert len(enough_bytes) == num_bytes
+        if not any(enough_bytes):
+            continue
+""")], silent=["C16"], note="scalar 0 becomes unreachable on groups whose order has a bit length divisible by 8"),
+    B("seed-c15-ed-scalar-decoder-refuses-top-range", ["C15", "C08"], [("ed25519_group.py", """    def bytes_to_scalar(self, b):
+        return ed25519_basic.bytes_to_scalar(b)""", """    def bytes_to_scalar(self, b):
+        if b[-1] & 0xf0:
+            raise ValueError("scalar is not reduced")
+        return ed25519_basic.bytes_to_scalar(b)""")], note="legal scalars in [2^252, L) can be saved but not restored"),
+    B("seed-c09-fingerprint-cached-on-params", ["C09", "C16"], [("params.py", """        self.S_str = S
+""", """        self.S_str = S
+        self._fp = None
+"""), (SP, """        g = self.params.group
+        pieces = [g.arbitrary_element(b"").to_bytes(),
+                  g.scalar_to_bytes(g.password_to_scalar(b"")),
+                  self.params.M.to_bytes(),
+                  self.params.N.to_bytes(),
+                  ]
+        return sha256(b"".join(pieces)).hexdigest()""", """        if self.params._fp is not None:
+            return self.params._fp
+        g = self.params.group
+        pieces = [g.arbitrary_element(b"").to_bytes(),
+                  g.scalar_to_bytes(g.password_to_scalar(b"")),
+                  self.params.M.to_bytes(),
+                  self.params.N.to_bytes(),
+                  ]
+        self.params._fp = sha256(b"".join(pieces)).hexdigest()
+        return self.params._fp""")], note="the cached value is per parameter object, not per role: whichever role runs first decides what the fingerprint covers"),
+    B("seed-c07-decorator-undoes-flag", ["C07"], [(SP, """class _SPAKE2_Base:
+    "This class manages""", """def _undo_flag_on_error(flag):
+    def decorate(f):
+        def wrapper(self, *args, **kwargs):
+            try:
+                return f(self, *args, **kwargs)
+            except Exception:
+                setattr(self, flag, False)
+                raise
+        return wrapper
+    return decorate
+
+class _SPAKE2_Base:
+    "This class manages"""), (SP, """    def start(self):
+        if self._started:""", """    @_undo_flag_on_error("_started")
+    def start(self):
+        if self._started:""")], silent=["C16"], note="the refusal of a second start() itself clears the flag: history start, start, start"),
+    B("seed-c01-element-add-skips-identity-detection", ["C01", "C13"], [(ED, """        sum_element = ElementOfUnknownGroup.add(self, other)
+        if sum_element is Zero:
+            return sum_element
+        if isinstance(other, (Element, _ZeroElement)):""", """        if isinstance(other, Element):
+            return Element(add_elements(self.XYTZ, other.XYTZ))
+        sum_element = ElementOfUnknownGroup.add(self, other)
+        if sum_element is Zero:
+            return sum_element
+        if isinstance(other, (Element, _ZeroElement)):""")], note="P + (-P) is typed Element; the fast ladder then runs on the identity (peer scalar 0)"),
+    N("seed-neutral-decorator-passthrough", [(SP, """class _SPAKE2_Base:
+    "This class manages""", """def _traced(f):
+    def wrapper(self, *args, **kwargs):
+        return f(self, *args, **kwargs)
+    return wrapper
+
+class _SPAKE2_Base:
+    "This class manages"""), (SP, """    def finish(self, inbound_side_and_message):
+        if self._finished:""", """    @_traced
+    def finish(self, inbound_side_and_message):
+        if self._finished:""")], note="a pass-through decorator changes nothing"),
     # ------------------------------------------------------------------ C16 isolation
     B("c16-blinding-cache-on-params", ["C16"], [(SP, """        pw_blinding = self.my_blinding().scalarmult(self.pw_scalar)
 """, """        cache = self.params.__dict__.setdefault("_blind_cache", {})
